@@ -1,9 +1,8 @@
 (* C06 - the reference parser reads back what render_dir writes (theory-free directives, identifier names). *)
-Require Import V.Lib.Base V.Lib.Dec V.Gen.Consts_C06 V.C06.Model V.C06.RefParse V.C06.ProofsLex.
+Require Import V.Lib.Base V.Lib.Dec V.Gen.Consts_C06 V.C06.Model V.C06.RefParse V.C06.Spec V.C06.ProofsLex.
 Local Open Scope Z_scope.
 
 (* ---------- the statement a buffered directive denotes ---------- *)
-Definition wl_of (x : Z * Z) : glit Z * Z := (lit_of (fst x), snd x).
 Definition cl_of (x : Z) : glit Z * Z := (lit_of x, 1).
 Definition body_of (b : wbody) : body Z :=
   match b with
@@ -23,7 +22,6 @@ Definition stmt_of_dir (d : dir) : stmt Z :=
   | DEdge s t c => SEdge s t (map lit_of c)
   end.
 
-Definition nonneg (l : list Z) : Prop := Forall (fun a => 0 <= a) l.
 Definition dir_ok (d : dir) : Prop :=
   match d with
   | DRule _ h _ => nonneg h
@@ -407,7 +405,7 @@ Proof.
         - intros z Hz l Hl. apply e_name; [|assumption]. unfold nonneg in Hh. rewrite Forall_forall in Hh. now apply Hh.
         - destruct b as [[|? ?]| |]; reflexivity.
         - destruct b as [[|? ?]| |]; cbn [render_body pre_list app]; rewrite <- ?app_assoc; now apply tok_none. }
-      Show. rewrite E2. rewrite (rule_tail false (map nu (x :: h)) s_if) by (now left). reflexivity.
+      unfold t_bar. rewrite E2. rewrite (rule_tail false (map nu (x :: h)) s_if) by (now left). reflexivity.
 Qed.
 
 (* ---------- every directive ---------- *)
@@ -437,9 +435,9 @@ Proof.
     + eexists; eexists; split; [reflexivity | repeat split; discriminate].
     + inversion Hd; subst.
       destruct (good_name_inv _ (name_of_good nm x Hnm H1)) as (c & a & E & Hc & _).
-      exists c. eexists. split.
-      * rewrite app_nil_l. destruct h; [cbn [sep_list] | rewrite sep_list_cons]; rewrite E; reflexivity.
-      * unfold is_name_start, is_lower, is_ws in *. lia.
+      assert (Hc3 : is_ws c = false /\ c <> 37 /\ c <> 91) by (unfold is_name_start, is_lower, is_ws in *; lia).
+      rewrite app_nil_l. destruct h; [cbn [sep_list] | rewrite sep_list_cons]; rewrite E; cbn [app];
+        exists c; eexists; (split; [reflexivity | exact Hc3]).
 Qed.
 
 Lemma render_dirs_starts ds : Forall dir_ok ds -> starts_ok (render_dirs nm ds).
